@@ -767,6 +767,12 @@ fn explore_state(cfg: &SimConfig, hist: &[Ev], seq_fps: &HashSet<Fp>, props: &[&
             pairs.push((a, b));
         }
     }
+    // two requests of the same kind (same origin, same version) issued at the same time
+    for &(a, _) in &ops {
+        if matches!(a, Ev::Issue { .. }) && issued_now + 2 <= cfg.max_requests {
+            pairs.push((a, a));
+        }
+    }
     for &(a, _) in &ops {
         for &x in &envs {
             pairs.push((a, x));
